@@ -69,11 +69,34 @@ def glen(rng):
     return rng.choice([0, 1, 1, 2, 2, 3, 3, 4, 4, 5, 6, 7, 8, 9, 10, 12])
 
 
+def gbidx(rng, n, valid=False):
+    """an index on / one beside the ends of the valid range -len(x) .. len(x)-1: the first entry named from the end (-len),
+    the last one (len-1, -1), the first (0), and the first values outside (len, -len-1) and their neighbours"""
+    if valid:
+        return rng.choice([-n, -n, -1, 0, n - 1, 1 - n]) if n else 0
+    return rng.choice([-n, -n, -n - 1, -n + 1, -1, 0, n - 1, n, n + 1])
+
+
 def gindex(rng, n, allow_none=True):
-    """index selection: None / single int / tuple with negatives, out-of-range, duplicates, empty"""
+    """index selection: None / single int / tuple with negatives, out-of-range, duplicates, empty, boundary (-len, -1, 0,
+    len-1 in range; len, -len-1 just outside)"""
     k = rng.random()
     if allow_none and k < 0.2:
         return None, "none"
+    if k > 0.86:
+        if n == 0 or rng.random() < 0.25:
+            return gbidx(rng, n), "boundary-single"
+        # distinct slots, each named from the front or from the end
+        slots = rng.sample([0, n - 1] + list(range(n)), min(n, rng.randint(1, 3)))
+        slots = list(dict.fromkeys(slots))
+        idx = [w - n if rng.random() < 0.6 else w for w in slots]
+        if 0 in slots and rng.random() < 0.7:
+            idx[slots.index(0)] = -n
+        tag = "boundary"
+        if rng.random() < 0.3:
+            idx.insert(rng.randrange(len(idx) + 1), rng.choice([n, -n - 1]))
+            tag = "boundary-outside"
+        return tuple(idx), tag
     if k < 0.3:
         i = rng.randint(-n - 1, n) if rng.random() < 0.4 else (rng.randrange(n) if n else 0)
         return i, "single"
@@ -182,7 +205,7 @@ class Patch:
 # ------------------------------------------------------------------ one case = dict(op, cfg, x, kind)
 OPS = ["discrete", "integers", "rounded", "precision", "bounds", "bounded", "unique", "sorting", "monotonic",
        "at", "as", "partial", "sync", "clipped", "suppress", "masked", "mean", "spread", "norm", "var"]
-WEIGHTS = [10, 9, 7, 4, 12, 6, 5, 8, 8, 8, 8, 5, 6, 5, 5, 5, 5, 4, 5, 3]
+WEIGHTS = [10, 9, 7, 4, 12, 6, 9, 8, 8, 8, 8, 5, 6, 5, 5, 5, 5, 4, 5, 3]
 
 
 def gen_intervals(rng):
@@ -442,7 +465,7 @@ def gen_case(rng):
         else:
             d = {}
             marks = []
-            for i in set(rng.randrange(-1, n + 2) for _ in range(rng.randint(1, 4))):
+            for i in set((gbidx(rng, n) if rng.random() < 0.2 else rng.randrange(-1, n + 2)) for _ in range(rng.randint(1, 4))):
                 ivs, _ = gen_intervals(rng); d[i] = ivs; marks += [e for iv in ivs for e in iv]
             c["dict"] = d
             c["index"], c["itag"] = (gindex(rng, n, allow_none=False) if form == "dict+index" else (None, "none"))
@@ -458,14 +481,48 @@ def gen_case(rng):
         c["x"] = near_values(rng, [e for iv in ivs for e in iv], n, special=False)
         c["kinds"] = ("list", "array")
     elif op == "unique":
+        # the allowed values: a sorted list without repeats, a list in any order, a list / tuple in which members are
+        # listed several times (assembled from several sources), a set, a range
         m = rng.randint(0, 8)
-        full = sorted(set(dyadic(rng, -4, 8, 2) for _ in range(m)))
-        full = [0.0 if v == 0 else v for v in full]
-        c["full"] = full
-        pool = full + ([99.5] if rng.random() < 0.06 else [])
-        c["x"] = [rng.choice(pool) for _ in range(n)] if pool else []
+        base = sorted(set(dyadic(rng, -4, 8, 2) for _ in range(m)))
+        base = [0.0 if v == 0 else v for v in base]
+        form = rng.choice(["sorted", "shuffled", "repeats", "repeats", "repeats", "tuple-repeats", "set", "range"])
+        if form == "range":
+            lo = rng.randint(-3, 3); hi = lo + rng.randint(0, 9)
+            c["range"] = [lo, hi]
+            base = [float(v) for v in range(lo, hi)]
+        full = list(base)
+        if form in ("repeats", "tuple-repeats") and base:
+            for _ in range(rng.randint(1, 5)):
+                full.insert(rng.randrange(len(full) + 1), rng.choice(base))
+        if form in ("shuffled", "repeats", "tuple-repeats"):
+            rng.shuffle(full)
+        c["full"] = full; c["form"] = form; c["itag"] = form
+        k = rng.random()
+        if base and k < 0.6:
+            n = rng.randint(0, len(base) + (1 if rng.random() < 0.15 else 0))     # mostly: a distinct vector exists
+        src = list(base)
+        if base and rng.random() < 0.55:
+            src = rng.sample(base, min(len(base), rng.randint(1, 3)))       # few different values: many repeats to replace
+        pool = src + ([99.5] if rng.random() < 0.05 else [])
+        x = [rng.choice(pool) for _ in range(n)] if pool else []
+        if base and rng.random() < 0.12:
+            x = rng.sample(base, min(len(base), n))                         # conforming: pairwise distinct allowed values
+        c["x"] = x
         c["via"] = rng.choice(["unique", "impose_unique"])
-        c["kinds"] = ("list",)
+        c["kinds"] = ("list", "list", "tuple", "array")
+        if rng.random() < 0.14:
+            # full = int (or no `full` at all and integer entries): the allowed values are range(min(x), max(x)+1)
+            # (constraints.py l.1107-1110, l.1143-1146); the entries are handed over as python ints, at least one of them
+            form = rng.choice(["int-type", "none-int"])
+            lo = rng.randint(-3, 3); span = rng.randint(0, 8)
+            xi = [rng.randint(lo, lo + span) for _ in range(rng.randint(1, span + 2))]
+            if rng.random() < 0.5:
+                xi[rng.randrange(len(xi))] = lo + span; xi[rng.randrange(len(xi))] = lo      # the whole span is allowed
+            c["x"] = [float(v) for v in xi]
+            c["full"] = [float(v) for v in range(min(xi), max(xi) + 1)]
+            c["form"] = c["itag"] = form
+            c["kinds"] = ("list", "list", "tuple")
     elif op in ("sorting", "monotonic"):
         c["asc"] = rng.random() < 0.6
         c["outer"] = rng.random() < 0.3
@@ -479,7 +536,12 @@ def gen_case(rng):
         c["kinds"] = ("list", "list", "array")
     elif op == "at":
         m = rng.randint(0, 5)
-        index = [rng.randint(-n - 1, n + 2) if rng.random() < 0.3 else (rng.randrange(n) if n else 0) for _ in range(m)]
+        index = []
+        for _ in range(m):
+            k = rng.random()
+            index.append(gbidx(rng, n) if k < 0.2 else (rng.randint(-n - 1, n + 2) if k < 0.4 else (rng.randrange(n) if n else 0)))
+        if m and rng.random() < 0.12:                         # only boundary addresses that exist, e.g. [-len] or [-len, len-1]
+            index = list(dict.fromkeys(gbidx(rng, n, valid=True) for _ in range(rng.randint(1, 2))))
         if rng.random() < 0.7:
             index = list(dict.fromkeys(index))
         elif n and index and rng.random() < 0.5:             # the same slot addressed twice, once from the end
@@ -499,15 +561,16 @@ def gen_case(rng):
         gen_as(rng, c, n)
     elif op == "partial":
         m = rng.randint(0, 4)
-        c["mask"] = {(rng.randint(-n - 1, n + 1) if rng.random() < 0.35 else (rng.randrange(n) if n else 0)): gval(rng) for _ in range(m)}
+        gk = lambda k: gbidx(rng, n) if k < 0.2 else (rng.randint(-n - 1, n + 1) if k < 0.4 else (rng.randrange(n) if n else 0))
+        c["mask"] = {gk(rng.random()): gval(rng) for _ in range(m)}
         c["x"] = gvec(rng, n)
         c["kinds"] = ("list", "list", "array")
     elif op == "sync":
         m = rng.randint(0, 4)
         mask = {}
         for _ in range(m):
-            i = rng.randint(-n - 1, n + 1) if rng.random() < 0.3 else (rng.randrange(n) if n else 0)
-            j = rng.randint(-n - 1, n + 1) if rng.random() < 0.3 else (rng.randrange(n) if n else 0)
+            gk = lambda k: gbidx(rng, n) if k < 0.15 else (rng.randint(-n - 1, n + 1) if k < 0.35 else (rng.randrange(n) if n else 0))
+            i = gk(rng.random()); j = gk(rng.random())
             if rng.random() < 0.3:
                 mask[i] = (j, rng.choice([2.0, -1.0, 0.5, 1.0, 0.0]))
             else:
@@ -688,6 +751,22 @@ def build_dec(c, extra):
     return dec
 
 
+def full_object(c):
+    """the `full` argument of unique / impose_unique in the form the case asks for (a fresh object every time)"""
+    form = c.get("form", "sorted")
+    if form == "int-type":
+        return int
+    if form == "none-int":
+        return None
+    if form == "range":
+        return range(int(c["range"][0]), int(c["range"][1]))
+    if form == "set":
+        return set(c["full"])
+    if form == "tuple-repeats":
+        return tuple(c["full"])
+    return list(c["full"])
+
+
 def run_impl(c, rng):
     """returns (result: list of floats | ('err', enum), extra dict recorded from the run)"""
     import numpy as np
@@ -759,20 +838,35 @@ def run_impl(c, rng):
 
         def shuffle(l):
             if c.get("_new") is not None:
-                l[:] = list(c["_new"])
+                # replay: the recorded list is the ORDER the shuffle produced, never the content - the tree under replay
+                # builds its own pool; a pool with other members is shuffled reproducibly instead
+                rec_ = [float(v) for v in c["_new"]]
+                if sorted(rec_) == sorted(float(v) for v in l):
+                    have = {}
+                    for v in l:
+                        have.setdefault(float(v), []).append(v)
+                    l[:] = [have[r].pop() for r in rec_]
+                else:
+                    _random.Random(0).shuffle(l)
             else:
                 rng.shuffle(l)
             rec.append([float(v) for v in l])
+        asint = c.get("form") in ("int-type", "none-int")
+        if asint:
+            xin = type(xin)(int(v) for v in xin)             # python ints (numbers.Integral), same container
         with Patch(shuffle=shuffle):
             if c["via"] == "unique":
-                r = call(lambda v: C.unique(v, list(c["full"])))
+                r = call(lambda v: C.unique(v, full_object(c)))
             else:
-                r = call(C.impose_unique(list(c["full"]))(ident))
+                r = call(C.impose_unique(full_object(c))(ident))
         extra["new"] = rec[0] if rec else []
+        extra["shuffled"] = bool(rec)
 
         def again(v):
+            if asint:
+                v = [int(a) for a in v]
             with Patch(shuffle=lambda l: l.sort()):
-                return C.unique(v, list(c["full"])) if c["via"] == "unique" else C.impose_unique(list(c["full"]))(ident)(v)
+                return C.unique(v, full_object(c)) if c["via"] == "unique" else C.impose_unique(full_object(c))(ident)(v)
         extra["g"] = again
         return r, extra
     if op == "bounds" and "single_form" not in c:
@@ -877,6 +971,9 @@ def compare(c, res, rep):
     my = floats_of(r[1]["y"])
     if isinstance(res, tuple):
         return "implementation raised %s, model returned %r" % (res[1], my), stream
+    if c["op"] == "unique" and r[1].get("pool") != "ok":
+        return ("the list handed to shuffle is not `set(full) - set(x)` in some order (no repeats, allowed values that do not occur "
+                "in x, all of them): model pool=%s, result model=%r impl=%r" % (r[1].get("pool"), my, res)), stream
     a, b = res, my
     if c["op"] in ("integers", "rounded", "precision"):
         a, b = canon0(a), canon0(b)            # numpy rint keeps the sign of a zero result; the field model does not
@@ -998,6 +1095,11 @@ def monitor(c, res, extra):
             m = c["mask"]
             if all(0 <= k <= n + len(m) - 1 for k in m):
                 out.append(("masked/keyerror-guard", "masked(%r) raised KeyError on an input of length %d although every key is in [0, %d]" % (m, n, n + len(m) - 1)))
+        if op == "unique":
+            allowed = set(c["full"])
+            if all(v in allowed for v in x) and n <= len(allowed):
+                out.append(("unique/raises-on-satisfiable", "%s raised %s on x=%r although every entry is an allowed value and the allowed set %r has "
+                            "%d different members for %d entries" % (c["via"], res[1], x, c["full"], len(allowed), n)))
         if op == "at":
             idx = c["index"]
             kept = [i for i in idx if i < n]
@@ -1148,9 +1250,18 @@ def monitor(c, res, extra):
             if first and y[k] != x[k]:
                 bad("unique/frame", "first occurrence %d changed from %r to %r" % (k, x[k], y[k])); break
         if len(set(y)) != len(y):
-            bad("unique/distinct", "result has repeated values")
+            bad("unique/distinct", "result has repeated values (allowed values %r, as a %s)" % (full, c.get("form", "sorted")))
         if any(v not in full for v in y):
             bad("unique/in-target", "result has a value outside the allowed set %r" % (full,))
+        if len(set(x)) == len(x) and not same_vec(y, x):
+            bad("unique/fix-conform", "input of pairwise-distinct allowed values was changed")
+        # twice = once: a second application (its own shuffle) returns the first result
+        try:
+            z = tolist(extra["g"](list(y)))
+            if not same_vec(z, y):
+                bad("unique/idempotent", "second application gives %r" % (z,))
+        except Exception as e:
+            bad("unique/idempotent", "second application raised %r" % (e,))
     elif op in ("sorting", "monotonic"):
         il = idx_list(c["index"])
         if il is None:
@@ -1158,7 +1269,13 @@ def monitor(c, res, extra):
         elif len(il) == 1 or n == 1:
             sel = []
         else:
-            sel = sorted(set(wrap(n, i) for i in il))
+            ws = [wrap(n, i) for i in il]
+            if any(w is None for w in ws):
+                # an out-of-range index: the pinned code raises IndexError; a tree that returns a value is compared by the
+                # correspondence, here only the entries no index names are judged
+                frame(set(w for w in ws if w is not None), op + "/frame")
+                return out
+            sel = sorted(set(ws))
             if len(sel) != len(il):
                 return out                                   # duplicate index: malformed
         frame(set(sel), op + "/frame")
@@ -1182,16 +1299,21 @@ def monitor(c, res, extra):
         idx = c["index"]
         kept = [i for i in idx if i < n]
         ws = [wrap(n, i) for i in kept]
-        frame(set(ws), "impose_at/frame")
+        # an index below -len(x) names nothing: the pinned code raises IndexError (the result is then a raise, judged above); a
+        # tree that returns a value there is compared by the correspondence, and every index that DOES name an entry
+        # (-len(x) .. len(x)-1) is judged here
+        below = any(w is None for w in ws)
+        frame(set(w for w in ws if w is not None), "impose_at/frame")
         tg = [c["target"]] * len(kept) if "target" in c else (c["targets"] * len(kept) if len(c["targets"]) == 1 else c["targets"])
-        if len(tg) == len(ws):
+        if len(tg) == len(ws) and not (below and "targets" in c and len(c["targets"]) != 1):
             last = {}
             for r, w in enumerate(ws):
-                last[w] = tg[r]                              # a slot addressed twice keeps the LAST value listed for it
+                if w is not None:
+                    last[w] = tg[r]                          # a slot addressed twice keeps the LAST value listed for it
             for w, v in last.items():
                 if not same_float(y[w], v):
                     key = "impose_at/in-target" if ws.count(w) == 1 else "impose_at/last-write-wins"
-                    bad(key, "entry %d is %r, target %r" % (w, y[w], v)); break
+                    bad(key, "entry %d (addressed by %r of index=%r, len(x)=%d) is %r, target %r" % (w, [i for i in kept if wrap(n, i) == w], idx, n, y[w], v)); break
         idem(extra["f"], "impose_at/idempotent")
     elif op == "as":
         pairs = c["mask"]; off = c["offset"] or 0.0
@@ -1554,10 +1676,38 @@ def clause_tags(c, res):
         il = idx_list(c["index"])
         if il is not None and len(il) > 1 and n > 1:
             tags.append(op + "-selected-subsequence")
+    elif op == "unique":
+        r_ = n - len(set(x))
+        tags.append("unique:%s:%s:%s" % (c.get("form"), c["via"], "raises" if not ok else ("replaced-" + ("0" if r_ == 0 else ("1" if r_ == 1 else "2+")))))
     elif op == "bounded" and ok:
         moved = sum(1 for a, b in zip(x, res) if not same_float(a, b))
         tags.append("bounded:%s:%s" % (c["mode"], "redrawn" if moved else "untouched"))
+    # boundary addresses: which index-taking transform saw -len(x) (the first entry named from the end), len(x)-1, and the
+    # first values outside (len(x), -len(x)-1)
+    vals = index_values(c)
+    if vals and n:
+        for v, name in ((-n, "-len"), (n - 1, "len-1"), (-1, "-1"), (n, "len"), (-n - 1, "-len-1")):
+            if v in vals:
+                tags.append("bidx:%s:%s:%s" % (op, name, "returns" if ok else "raises"))
     return tags
+
+
+def index_values(c):
+    """every integer the configuration uses as an address into x"""
+    op = c["op"]
+    if op in ("discrete", "integers", "rounded", "precision", "bounded", "sorting", "monotonic"):
+        return idx_list(c["index"]) or []
+    if op == "bounds":
+        return (idx_list(c["index"]) or []) + (list(c["dict"]) if c["form"] != "plain" else [])
+    if op == "at":
+        return list(c["index"])
+    if op == "partial":
+        return list(c["mask"])
+    if op == "sync":
+        return list(c["mask"]) + [j[0] if isinstance(j, tuple) else j for j in c["mask"].values()]
+    if op == "as":
+        return [a for p in c["mask"] for a in p]
+    return []
 
 
 # ------------------------------------------------------------------ shard
@@ -1598,9 +1748,22 @@ def judge(recs, lines, replies, findings, hist, samples):
         div, stream = compare(c, res, rep)
         if div:
             findings.append(Finding("correspondence", "%s/diverges" % op, div, case))
-        for key, what in monitor(c, res, extra):
+        try:
+            mon = monitor(c, res, extra)
+        except Exception:
+            # the result has a shape the monitor's reading of the configuration does not expect: a broken correspondence
+            import traceback
+            mon = []
+            findings.append(Finding("correspondence", "%s/monitor-cannot-judge" % op, "the monitor raised on the implementation's result %r: %s"
+                                    % (res, traceback.format_exc(limit=3)), case))
+        for key, what in mon:
             findings.append(Finding("monitor", key, what, case))
-        afind, atag = alias_monitor(c, res, extra)
+        try:
+            afind, atag = alias_monitor(c, res, extra)
+        except Exception:
+            import traceback
+            afind, atag = [], "monitor-raised"
+            findings.append(Finding("correspondence", "%s/alias-monitor-cannot-judge" % op, "the aliasing monitor raised: %s" % traceback.format_exc(limit=3), case))
         for key, what in afind:
             findings.append(Finding("monitor", key, what, case))
         if atag:
@@ -1713,7 +1876,7 @@ def replay(path):
     warnings.simplefilter("ignore"); np.seterr(all="ignore")
     data = json.load(open(path))
     case = data["case"]
-    c = {k: v for k, v in case.items() if k not in ("request", "impl", "model", "picks", "draws", "new")}
+    c = {k: v for k, v in case.items() if k not in ("request", "impl", "model", "picks", "draws", "new", "shuffled")}
     unj = lambda o: (float(o["float"]) if isinstance(o, dict) and "float" in o else ([unj(v) for v in o] if isinstance(o, list) else o))
     for k in ("x", "samples", "full", "targets", "ivs"):
         if k in c:
